@@ -83,7 +83,29 @@ def run_conv(c):
     return {'P': P, 'xp': ints(xp[0]), 'g': ints(bp[0].t()), 'gw': ints(gw), 'gb': [int(round(v)) for v in r[layer.bias][0].tolist()]}
 
 
+def run_conv2(c):
+    """nn.Conv2d with anisotropic kernel / stride / dilation / padding (incl. 'same' and non-zero padding modes): the real grad sampler (unfold2d inside)
+    on small integers; the padded input is computed here with F.pad and handed to the model, which only knows tap locations"""
+    import torch.nn.functional as F
+    from opacus.grad_sample.conv import compute_conv_grad_sample
+    g = torch.Generator().manual_seed(c['seed'])
+    G, cg, og, (Kh, Kw), (sh, sw), (dh, dw), pad, (H, W) = c['G'], c['cg'], c['og'], c['K'], c['stride'], c['dil'], c['pad'], c['HW']
+    layer = nn.Conv2d(G * cg, G * og, (Kh, Kw), stride=(sh, sw), padding=pad if isinstance(pad, str) else tuple(pad), dilation=(dh, dw), groups=G, bias=True,
+                      padding_mode=c.get('pmode', 'zeros'))
+    x = torch.randint(-3, 4, (1, G * cg, H, W), generator=g).double()
+    rp = layer._reversed_padding_repeated_twice           # (w_left, w_right, h_top, h_bottom), also for 'same'
+    xp = F.pad(x, rp) if c.get('pmode', 'zeros') == 'zeros' else F.pad(x, rp, mode=c['pmode'])
+    Hp, Wp = xp.shape[-2:]
+    Ph = (Hp - dh * (Kh - 1) - 1) // sh + 1
+    Pw = (Wp - dw * (Kw - 1) - 1) // sw + 1
+    bp = torch.randint(-3, 4, (1, G * og, Ph, Pw), generator=g).double()
+    r = compute_conv_grad_sample(layer, [x], bp)
+    gw = r[layer.weight][0].reshape(G * og, cg * Kh * Kw)
+    return {'Ph': Ph, 'Pw': Pw, 'Wp': Wp, 'xp': ints(xp[0].reshape(G * cg, Hp * Wp)), 'g': ints(bp[0].reshape(G * og, Ph * Pw).t()), 'gw': ints(gw),
+            'gb': [int(round(v)) for v in r[layer.bias][0].tolist()]}
+
+
 if __name__ == '__main__':
     p = read_payload()
     emit({'lin': [run_lin(c) for c in p.get('lin', [])], 'emb': [run_emb(c) for c in p.get('emb', [])], 'conv': [run_conv(c) for c in p.get('conv', [])],
-          'bag': [run_bag(c) for c in p.get('bag', [])]})
+          'bag': [run_bag(c) for c in p.get('bag', [])], 'conv2': [run_conv2(c) for c in p.get('conv2', [])]})
